@@ -110,12 +110,22 @@ JOBS["C15"] = [
     I("daemon", "internal/core", "^TestVerifC15Daemon$", {"shards": 4, "checks": 4, "timeout": 1200}, {"shards": 14, "checks": 60, "timeout": 3400}),
 ]
 
+JOBS["C13"] = [
+    I("crashpoints", "internal/core", "^TestVerifC13CrashPoints$", {"shards": 4, "checks": 1, "timeout": 1500}, {"shards": 12, "checks": 6, "timeout": 3400}),
+]
+
 LEVELS = {"C13": "fault_enumeration"}
 
 _MACHINE = ("rapid state machine over a network of real beacon handlers: scheme in 5, n in 2..6, t in [n/2+1,n], back-end in {memdb (cap 2000 or 10), bolt trimmed, bolt untrimmed}, period 2..6 s; "
             "actions: tick, sub-period advance, burst of 2-6 periods, advance of a subset (skew/stall), realign, partition/heal, queue mode with generated delivery order and drops, duplicate mode, stop/restart (same or fresh store), "
             "forged partial injection (12 kinds incl. valid-for-clock+k), scripted lying sync peer (13 kinds), sync-stream tap. ")
 RULES = {
+    "C13": "three real daemons (in-package, loopback gRPC, bolt stores, file key stores, verif hooks on) run a script: first DKG through the control API, 4 rounds, (2/3 of the cases and always shard 0) a resharing and the rounds across its transition. "
+           "Drawn per case: scheme, threshold, which node is the node under test (leader or follower). Every persistence point of that node (key.Save begin/created/end for group and share file, DKG store save/SaveFinished begin/end, chain Put begin/end; all persistence "
+           "in the process serialised between begin and end by the hook) yields a crash image = copy of its folder; for every in-place file write two torn images (prefix of the new content) are synthesised. Every image is restarted: (a) a fresh daemon loads it without error or panic, "
+           "(b) dkg.db decodes and its finished record is one whole epoch (Complete, group and share of one key), (c) group file and share file decode and are exactly the group and share of the epoch dkg.db records as completed (none if it records none), "
+           "(d) the chain store scans gap-free from 0, every beacon verifies under the group key, and holds every round the node had served before the snapshot, (e) after three periods of clock time no fatal event. "
+           "All images of a case are examined (fault enumeration over the persistence points of the script); non-trivial: every image; distinct by case + image index + crash window.",
     "C15": "(dkg) real dkg.Process instances run a key generation (n in 2..4, 5 schemes) and optionally a resharing on the in-memory bus; every gossip and bundle message (marshalled protobuf), every DKG status answer and every log line at debug level is scanned. "
            "(daemon) a real two-chain daemon (bolt or memdb, process umask 0 or 022) produces beacons; the marshalled answers of PublicRand, ChainInfo, GetIdentity, PublicKey, GroupFile, Status, DKGStatus, ListBeaconIDs, the first SyncChain item, the database backup, "
            "the HTTP bodies of /{hash}/info|public/latest|public/1|health and /chains, and every log line are scanned; every file under the daemon's folder is scanned and those in which a secret is found must have no group/other permission bits. "
@@ -214,6 +224,8 @@ RULES = {
 }
 
 ASSUMPTIONS = {
+    "C13": ["bbolt commits are atomic (images are taken before and after each transaction, not inside)", "no reordering of writes below the file system", "resumption is checked as 'loads, serves its chain and keeps running'; rejoining a live network after restart is C05's subject",
+            "leaving the group (key.Delete) is hooked but not part of the script"],
     "C15": ["a leak would use one of the searched encodings of the whole scalar (partial leaks / side channels are out of reach)", "encrypted deals are trusted to be encrypted (ECIES of kyber)"],
     "C14": ["resource exhaustion by volume is C12's subject", "TLS and reverse proxies are not in the loop", "native coverage-guided fuzz targets were not built (structured generation from the descriptors instead)"],
     "C19": ["service methods are called in-process (the gRPC transport adds no routing); HTTP goes through the daemon's real handler", "single-member groups (the routing layer does not depend on group size)", "/health excluded: it compares with the wall clock"],
